@@ -12,6 +12,7 @@ JWS_KINDS = [
     ("HS256", "oct32"), ("HS384", "oct48"), ("HS512", "oct64"),
     ("RS256", "rsa"), ("RS384", "rsa"), ("RS512", "rsa"),
     ("PS256", "rsa"), ("PS384", "rsa"), ("PS512", "rsa"),
+    ("RS256", "rsa2047"), ("PS256", "rsa1025"),      # modulus length not a multiple of 8 bits
     ("ES256", "P-256"), ("ES384", "P-384"), ("ES512", "P-521"), ("ES256K", "secp256k1"),
     ("EdDSA", "Ed25519"), ("EdDSA", "Ed448"),
 ]
@@ -27,6 +28,8 @@ def _key(kind, which):
         return A.rsa_jwk(["rsa_2048_a", "rsa_2048_b", "rsa_3072_a", "rsa_2048_e3", "rsa_4096_a"][which % 5])
     if kind == "rsa1024":
         return A.rsa_jwk("rsa_1024_a")
+    if kind in ("rsa2047", "rsa1025", "rsa2041"):
+        return A.rsa_jwk(["rsa_%s_a" % kind[3:], "rsa_2048_b", "rsa_3072_a"][which % 3])
     if kind in A.EC_CURVES:
         return A.ec_full(kind, which)
     return A.okp_jwk(kind, which)
